@@ -751,11 +751,12 @@ theorem tx1Create_ok {cfg : Cfg} {w w1 : World} {s : String} {chs : List Change}
   split at h
   · cases h
   · rename_i hne
-    cases h
+    simp only [createWrite, Res.ok.injEq, Prod.mk.injEq] at h
+    rcases h with ⟨rfl, rfl⟩
     refine ⟨rfl, rfl, rfl, rfl, rfl, ?_⟩
     intro r hr hs
     apply hne
-    simp only [List.any_eq_true, decide_eq_true_eq]
+    simp only [subjectExists, List.any_eq_true, decide_eq_true_eq]
     exact ⟨r, hr, hs⟩
 
 theorem groupOf_push {dids : List DidRow} {n : Nat} (o : Op) (now : Nat) (h : Inv dids n) :
